@@ -713,6 +713,17 @@ impl Interface {
 
         let mut result = PollResult::None;
         for item in sockets.items_mut() {
+            // There is a single fragmentation buffer. While it still holds fragments that
+            // have not been transmitted, no socket may dispatch: a packet that needs
+            // fragmentation would overwrite the buffer and the rest of the datagram in
+            // flight would never be sent. The sockets keep their data queued and are
+            // served by a later egress pass, after `ipv4_egress`/`sixlowpan_egress` have
+            // drained the buffer (`poll_at` asks for an immediate poll meanwhile).
+            #[cfg(feature = "_proto-fragmentation")]
+            if !self.fragmenter.finished() {
+                break;
+            }
+
             if !item
                 .meta
                 .egress_permitted(self.inner.now, |ip_addr| self.inner.has_neighbor(&ip_addr))
@@ -1297,6 +1308,15 @@ impl InterfaceInner {
                                 "Fragmentation buffer is too small, at least {} needed. Dropping",
                                 total_ip_len
                             );
+                            return Ok(());
+                        }
+
+                        // The fragmentation buffer still holds unsent fragments of another
+                        // packet. Sockets do not get here in that case (see `socket_egress`),
+                        // this is a response generated while processing ingress: drop it
+                        // rather than corrupt the packet in flight.
+                        if !frag.finished() {
+                            net_debug!("Fragmentation buffer is busy. Dropping");
                             return Ok(());
                         }
 
